@@ -2,7 +2,7 @@
 
 META = {
     'level': 'exploration',
-    'rule': ('Same workload family as C04 with more wide/flat DAGs so the executor queue is non-empty when several '
+    'rule': ('Same workload family as C04 (a fifth of the process-backend runs are preceded, in the same interpreter, by a run that was aborted by LabError while a sibling task was still executing) with more wide/flat DAGs so the executor queue is non-empty when several '
              'slots free up in one polling batch; monitors: (a) at every wait() entry at the Runner boundary no '
              'unsubmitted task has all dependencies yielded and its type below max_parallel (exact, same thread); '
              '(b) at every gate-controlled rest point the set of launched-and-unfinished worker processes (ledger) '
@@ -25,6 +25,7 @@ def make_scn(rng, real):
         scn['gated'] = True
         scn.pop('free_sleep', None)
         scn['release_bias'] = rng.choice([0.4, 0.7, 0.9])
+        scn['prelude_abort'] = rng.random() < 0.2
     return scn
 
 
@@ -41,6 +42,8 @@ def judge(rep, scn, out):
     queued = any(len(r['inflight']) > out.W for r in out.rests) or \
         any(len(c['inflight']) > out.W for c in out.trace.calls if c['op'] == 'wait')
     rep.count('rests_with_queue', sum(1 for r in out.rests if len(r['inflight']) > out.W))
+    if getattr(out, 'prelude', None) == 'LabError':
+        rep.count('runs_after_an_aborted_run_in_the_same_process')
     return queued
 
 
